@@ -1947,3 +1947,81 @@ func IterationPathsAvoiding(hdr, avoid *ssa.BasicBlock) (paths [][]Cond, exits i
 	walk(hdr, nil)
 	return
 }
+
+// Rel returns the comparison that holds given branch outcome c: for a BinOp
+// condition `x op y` with outcome false, the negated operator is returned.
+func Rel(c Cond) (x, y ssa.Value, op token.Token, ok bool) {
+	c = stripBool(c)
+	bo, isBO := c.V.(*ssa.BinOp)
+	if !isBO {
+		return nil, nil, token.ILLEGAL, false
+	}
+	neg := map[token.Token]token.Token{token.EQL: token.NEQ, token.NEQ: token.EQL, token.LSS: token.GEQ, token.GEQ: token.LSS, token.GTR: token.LEQ, token.LEQ: token.GTR}
+	if _, known := neg[bo.Op]; !known {
+		return nil, nil, token.ILLEGAL, false
+	}
+	op = bo.Op
+	if !c.Truth {
+		op = neg[op]
+	}
+	return bo.X, bo.Y, op, true
+}
+
+// NonEmptyLen reports whether outcome c says len(s) > 0 for some s, in any of
+// the usual spellings (len != 0, len > 0, len >= 1, 0 < len, negations of the
+// complements), and returns s.
+func NonEmptyLen(c Cond) (ssa.Value, bool) {
+	x, y, op, ok := Rel(c)
+	if !ok {
+		return nil, false
+	}
+	if s, isLen := LenOf(x); isLen {
+		if k, isC := ConstInt(y); isC {
+			if (k == 0 && (op == token.NEQ || op == token.GTR)) || (k == 1 && op == token.GEQ) {
+				return s, true
+			}
+		}
+	}
+	if s, isLen := LenOf(y); isLen {
+		if k, isC := ConstInt(x); isC {
+			if (k == 0 && (op == token.NEQ || op == token.LSS)) || (k == 1 && op == token.LEQ) {
+				return s, true
+			}
+		}
+	}
+	return nil, false
+}
+
+// CondAltsAt lists the alternative conjunctions of branch outcomes under which
+// block b is entered: for a block with several forward predecessors (the body
+// of `if a || b`, a shared case body) one alternative per entering path,
+// otherwise the single conjunction CondsAt(b).
+func CondAltsAt(b *ssa.BasicBlock) [][]Cond {
+	return condAltsAt(b, 0)
+}
+
+func condAltsAt(b *ssa.BasicBlock, depth int) [][]Cond {
+	var fwd []*ssa.BasicBlock
+	for _, p := range b.Preds {
+		if !b.Dominates(p) {
+			fwd = append(fwd, p)
+		}
+	}
+	if len(fwd) <= 1 || depth > 3 {
+		return [][]Cond{CondsAt(b)}
+	}
+	var out [][]Cond
+	for _, p := range fwd {
+		for _, a := range condAltsAt(p, depth+1) {
+			alt := append([]Cond{}, a...)
+			if own, ok := EdgeOwnCond(p, b); ok {
+				alt = append(alt, normalizeAll([]Cond{own}, 0)...)
+			}
+			out = append(out, alt)
+		}
+	}
+	if len(out) > 32 {
+		return [][]Cond{CondsAt(b)}
+	}
+	return out
+}
